@@ -94,13 +94,14 @@ CLAIMS = {
             'opcode with extreme operands, up to 70000 instructions quick / 999999 thorough, far jumps, 3 helper sets) are compiled twice by both compilers in a child '
             'process and must give OK or ERR both times. This search found the Cranelift jump-to-first-instruction panic (fixed: a516a8e).',
             'Only the bookkeeping logic is proved; panics / overruns elsewhere are searched for, not excluded.'),
-    'C13': ('proof', 'Theorems C13_instruction / C13_program: for every mnemonic string and every operand list with 64-bit operand values, the instruction map '
-            '(regenerated by partial evaluation of make_instruction_map), encode, insn and the lddw second slot regenerated from assembler.rs give exactly '
-            'the slots of the independently written specification AsmSpec.denote (table by ISA numbering, shapes, range limits, lddw split, unused fields '
-            'zero) and an error exactly when it gives none; whole inputs: bytes = specified encoding of the parsed text in source order, or Err and no bytes. '
-            'PARTIAL for spellings: text -> (mnemonic, operand values) is the hand-modelled parser; number spellings / whitespace are covered by the '
-            'correspondence (model = implementation = specification = bytes computed independently by the generator), not by a grammar theorem.',
-            'asm_parser.rs hand-modelled (tie B); Unicode classes taken from the implementation.'),
+    'C13': ('proof', 'Theorem C13_text: every text in the documented syntax -- mnemonic, white space, operands separated by `,` + any white space, numbers with optional '
+            'sign in decimal or 0x-hexadecimal (either case, any leading zeros), registers r+digits, memory operands [rN] / [rN+lit] / [rN-lit], lines separated by '
+            'white space -- assembles to the specified encoding (AsmSpec.denote: table by ISA numbering, shapes, range limits, lddw split, unused fields zero) of '
+            'what it spells, in source order, or to an error and no bytes when some instruction denotes nothing. Built from C13_instruction (regenerated instruction '
+            'map by partial evaluation + encode + insn + lddw second slot = denote, for every mnemonic string and operand list), C13_program, C13_tables_agree and '
+            'the grammar lemmas of GenText.v over the parser model. Correspondence: model = implementation = specification = bytes computed independently by the '
+            'generator, on spelled text incl. range limits and malformed input.',
+            'asm_parser.rs hand-modelled (tie B); theorem covers ASCII white space; `ja+5`-style gluing and non-ASCII blanks are evaluated only.'),
     'C16': ('proof', 'Theorem C16_roundtrip: for every program in the disassembler\'s domain, of any length and all field values, disassembling (regenerated disassembler), '
             'joining the lines and assembling (parser model + regenerated assembler.rs / ebpf.rs) returns the canonical form of the program when every instruction is '
             'expressible (mnemonic known to the assembler, 32-bit immediates non-negative, any 64-bit lddw value) and an error otherwise; corollaries '
